@@ -72,6 +72,7 @@ fn main() {
     "C22" => dispatch!(props::c22::C22),
     "C23" => dispatch!(props::c23::C23),
     "C24" => dispatch!(props::c24::C24),
+    "C25" => dispatch!(props::c25::C25),
     "C26" => dispatch!(props::c26::C26),
     "C28" => dispatch!(props::c28::C28),
     "C30" => dispatch!(props::c30::C30),
